@@ -29,6 +29,11 @@ LITERALS = ['char *s = "a\\"b\\\\c\\n"; char c = \'\\\'\'; char d = \'"\'; int e
             # braced blocks that start with a pragma, under case / default / if (coordinates must not decide the text)
             'void f(int a) { switch (a) { case 1: {\n#pragma p\n a++; } default: { _Pragma("q") a--; } } if (a) {\n#pragma r\n a++; } while (a) { _Pragma("s") } }',
             'struct { int a; } s1, *s2; enum { EA, EB } e1, e2; void f(void) { union { int u; } u1, u2[2]; } struct { int q; } *g(void), h1;',
+            # every specifier family at once, several declarators sharing the specifier lists (storage, alignment, function
+            # specifiers, qualifiers): generation must not write into lists the declarators share
+            'static _Alignas(16) int sa, sb; extern _Alignas(8) const int ea, *eb; void f(void) { static _Alignas(4) char c1, c2[2]; '
+            'register volatile int r1, r2; } static inline _Noreturn void g1(void), g2(void); _Thread_local static _Alignas(8) int t1, t2;',
+            'static _Alignas(16) int one; extern _Alignas(double) _Alignas(8) char two; static const volatile int q1, *const q2;',
             '']
 
 
@@ -115,10 +120,15 @@ def run_sequence(src, ops, vals):
     except Exception:
         return "skip"
     gen = lambda a: c_generator.CGenerator().visit(a)
+    before = proj(t0, coords=True)
     try:
         text_of_val = {1: gen(t0)}
     except Exception:
         return "skip"
+    if proj(t0, coords=True) != before:
+        return "step 0: generating C text changed the tree it was generated from"
+    if gen(t0) != text_of_val[1]:
+        return "step 0: generating twice from the same tree gives two texts"
     trees = [t0]
     val = [1]
     projc = [proj(t0, coords=True)]     # per tree, with coordinates
